@@ -665,6 +665,43 @@ pub fn ctxt_snapshot_nested(frames: &[Vec<(&'static str, i64)>]) -> emit::platfo
     snap
 }
 
+/// A ctxt leaf with `tp`: observe the Current of `TraceparentCtxt<ThreadLocalCtxt>` while one
+/// frame with the leaf's pairs is entered - pushed on the wrapped context ("inner") or through
+/// the TraceparentCtxt ("outer").  The view only lives inside `with_current`.
+pub fn with_tp_current<R>(t: &Value, with: impl FnOnce(&dyn ErasedProps) -> R) -> R {
+    use emit::Ctxt;
+    let p = pairs(t);
+    let wrapped = emit::platform::thread_local_ctxt::ThreadLocalCtxt::new();
+    let inner = &wrapped;
+    let ctxt = emit_traceparent::TraceparentCtxt::new(inner);
+    match t["tp"].as_str().unwrap() {
+        "outer" => {
+            let mut frame = ctxt.open_push(&p[..]);
+            ctxt.enter(&mut frame);
+            let r = ctxt.with_current(|c| with(c));
+            ctxt.exit(&mut frame);
+            ctxt.close(frame);
+            r
+        }
+        "inner" => {
+            let mut frame = inner.open_push(&p[..]);
+            inner.enter(&mut frame);
+            let r = ctxt.with_current(|c| with(c));
+            inner.exit(&mut frame);
+            inner.close(frame);
+            r
+        }
+        w => tool_error(&format!("tp {w}")),
+    }
+}
+
+/// Does the tree hold a TraceparentCtxt view, and is it the whole tree?
+pub fn tp_leaf(t: &Value) -> (bool, bool) {
+    let here = t["op"] == "ctxt" && t.get("tp").is_some();
+    let below = ["t", "l", "r"].iter().any(|f| t.get(*f).map_or(false, |c| c.is_object() && tp_leaf(c).0));
+    (here || below, here)
+}
+
 /// The ctxt leaf of the model: a single frame, or nested frames (`frames`).
 pub fn ctxt_of(t: &Value) -> emit::platform::thread_local_ctxt::ThreadLocalCtxtFrame {
     match t.get("frames") {
